@@ -124,6 +124,56 @@ def build_requests(tier):
     return reqs
 
 
+# classes under which CPython reports a connection that went away / timed out
+CONNECTION_CLASSES = {"BrokenPipeError", "ConnectionResetError", "ConnectionAbortedError", "TimeoutError", "timeout",
+                      "BlockingIOError", "SSLEOFError", "SSLError", "SSLZeroReturnError", "SSLSyscallError",
+                      "SSLWantWriteError", "OSError"}
+LIVE_DOC = "big.bin"
+
+
+def live_job(tier):
+    size = (6 << 20) if tier == "quick" else (24 << 20)
+    t = tree(tier) + [{"path": LIVE_DOC, "data": "x" * size},
+                      {"path": "big.html", "data": "<html><head><title>Big</title></head><body>" + "y" * size + "</body></html>"}]
+    clients = []
+    protos = ["gopher", "gopherplus", "http", "spartan", "gemini", "https"] + (["sgopher", "wap"] if tier != "quick" else [])
+    for proto in protos:
+        for sel in ["/" + LIVE_DOC] + (["/big.html"] if proto in ("gopher", "http") else []):
+            data, tls = gen.request_bytes(proto, sel)
+            for how, before in [("reset", 65536), ("close", 0)] + ([("reset", 0)] if tier != "quick" else []):
+                clients.append({"name": f"{proto}:{sel}:{how}@{before}", "proto": proto, "selector": sel, "data": lat(data),
+                                "tls": tls, "how": how, "read_before": before})
+    data, tls = gen.request_bytes("gopher", "/" + LIVE_DOC)
+    clients.append({"name": "gopher:/big.bin:stall", "proto": "gopher", "selector": "/" + LIVE_DOC, "data": lat(data),
+                    "tls": False, "how": "stall", "read_before": 1000})
+    data, tls = gen.request_bytes("http", "/" + LIVE_DOC)
+    clients.append({"name": "http:/big.bin:stall", "proto": "http", "selector": "/" + LIVE_DOC, "data": lat(data),
+                    "tls": False, "how": "stall", "read_before": 1000})
+    return {"op": "c20_live", "tree": t, "config": CONFIG, "clients": clients, "timeout": 1}
+
+
+def live_oracle(client, c):
+    """(tag, what) for one real connection that the client abandoned."""
+    hits = []
+    if c["escaped"]:
+        hits.append((f"live-escapes:{client['proto']}", "an exception reached socketserver.handle_error: " + c["escaped"][0][-300:]))
+    if not c["settled"]:
+        hits.append((f"live-handler-stuck:{client['proto']}", "the handler thread did not finish after the client went away"))
+    if not c["records"]:
+        hits.append((f"live-not-logged:{client['proto']}", "the abandoned transfer left no EXCEPTION record"))
+    for cls, addr, _ in c["records"]:
+        if cls not in CONNECTION_CLASSES:
+            hits.append((f"live-logged-as-other-class:{client['proto']}:{cls}",
+                         f"the connection failure is logged as {cls}"))
+        if addr != "127.0.0.1":
+            hits.append((f"live-no-client-address:{client['proto']}", "an EXCEPTION record lacks the client address"))
+    if c["fd_left"]:
+        hits.append((f"live-fd-leak:{client['how']}",
+                     "descriptors of the server process still open after the connection (after gc.collect()): "
+                     + ", ".join(c["fd_left"])))
+    return hits
+
+
 def coq_case(rq, entry, case):
     acts = "[" + "; ".join(ACT[ch] for ch in entry["events"] if ch in ACT) + "]"
     recs = "[" + "; ".join("(%s, %s)" % (LOGCLS.get(c, "LOther"), "true" if a else "false")
@@ -175,13 +225,18 @@ def run(tier):
     jobs = [{"op": "c20_sweep", "tree": tree(tier), "config": CONFIG, "requests": g, "classes": CLASSES, "every_index": True,
              "spans": SPANS[tier]}
             for g in groups.values()]
-    res = impl_run_parallel(jobs, chunks=len(jobs))
+    ljob = live_job(tier)
+    res = impl_run_parallel(jobs + [ljob], chunks=len(jobs) + 1)
     entries = []
     for job, r in zip(jobs, res):
         if not r["ok"]:
             raise RuntimeError(r["err"] + "\n" + r.get("tb", ""))
         for rq, e in zip(job["requests"], r["res"]):
             entries.append((rq, e))
+    lres = res[-1]
+    if not lres["ok"]:
+        raise RuntimeError(lres["err"] + "\n" + lres.get("tb", ""))
+    live = list(zip(ljob["clients"], lres["res"]["clients"]))
 
     # ---------------- oracle ----------------
     hits = {}
@@ -237,6 +292,23 @@ def run(tier):
                        "escaping_exception": cs["exc"], "records_after_fault": cs["records"], "log_tail": cs["log"],
                        "descriptors_left": cs["fd_gc"], "writes_of_unfaulted_response": e["writes"],
                        "cases_with_this_finding": len(lst), "tree": "harness/c20.py tree(tier)", "tier": tier, "config": CONFIG}, tag=tag)
+    # ---------------- live leg: real server, real sockets ----------------
+    lhits = {}
+    for cl, c in live:
+        chk.count(("live", cl["name"]), nontrivial=True)
+        for tag, what in live_oracle(cl, c):
+            lhits.setdefault(tag, []).append((cl, c, what))
+    for tag, lst in sorted(lhits.items()):
+        found = True
+        cl, c, what = lst[0]
+        chk.violation({"what": what, "leg": "live", "client": cl, "server": "pygopherd.server.ThreadingTCPServer on 127.0.0.1, "
+                       "ephemeral port, send/receive timeout 1 s, demo certificate", "bytes_received_by_client": c["received"],
+                       "records": c["records"], "escaped": c["escaped"], "descriptors_left": c["fd_left"],
+                       "log_tail": c["log"], "cases_with_this_finding": len(lst), "tier": tier,
+                       "tree": "harness/c20.py live_job(tier)"}, tag=tag)
+    cov["live"] = {"connections": len(live), "findings": {t: len(v) for t, v in lhits.items()},
+                   "classes_seen": sorted({r[0] for _, c in live for r in c["records"]}),
+                   "released_only_by_gc": sum(1 for _, c in live if c["fd_nogc"] and not c["fd_left"])}
     if shape_problems:
         found = True
         chk.violation({"what": "a request of the fault-free baseline misbehaves (no fault injected)",
@@ -266,13 +338,20 @@ def run(tier):
     cov["rule"] = ("every write index of every response kind (document, menu, gophermap, error page, Gopher+ info / "
                    "directory info, mailbox folder and message, ZIP member and listing, HTML document, HTTP icon, Gemini "
                    "prompt) x {EPIPE, ECONNRESET, one-argument timeout} x protocol families (gopher, gopher+, http, wap, "
-                   "gemini, spartan + TLS variants of two); exhaustive over write indices; every case non-trivial")
+                   "gemini, spartan + TLS variants of two) x fault patterns (gone for good, failing for 1 or 2 writes then "
+                   "recovering); exhaustive over write indices; plus real connections to the live server abandoned mid-document "
+                   "(reset, close, stall until the send timeout); every case non-trivial")
     chk.assumptions += [
         "the connection is a file object whose write() raises from index k on (flush() too); reads never fail",
         "OSError(EPIPE/ECONNRESET, msg) and socket.timeout('timed out') as raised by CPython's socket layer",
         "descriptor release of non-with resources (mailbox, ZIP archive) is reference counting / gc: checked on "
         "/proc/self/fd after gc.collect(); cases released only by gc are counted in oracle.descriptor_released_only_by_gc",
         "files opened through VFS_Real.open are tracked by substituting the module-level open of handlers/base.py",
+        "live leg: pygopherd's ThreadingTCPServer in the harness process on 127.0.0.1 with real client sockets (plaintext "
+        "and TLS) that reset / close / stall in the middle of a document larger than the socket buffers; there the "
+        "failure's class is whatever the kernel reports, so the oracle asks for a connection-failure class "
+        "(OSError family) on every record instead of one given class; /proc/self/fd of the server process is compared "
+        "with the baseline taken after a warm-up",
         "handlers that hand the socket descriptor to a subprocess (decompression, exec, PYG) are not in the handler list used",
     ]
     return chk.finish("proof")
@@ -281,6 +360,17 @@ def run(tier):
 def replay(path):
     with open(path) as f:
         rep = json.load(f)
+    if rep.get("leg") == "live":
+        job = live_job(rep.get("tier", "quick"))
+        job["clients"] = [rep["client"]]
+        r = impl_run([job])[0]
+        if not r["ok"]:
+            print(r["err"])
+            return 2
+        c = r["res"]["clients"][0]
+        hits = live_oracle(rep["client"], c)
+        print(json.dumps({"connection": c, "findings": hits}, indent=1))
+        return 1 if hits else 0
     job = {"op": "c20_sweep", "tree": tree(rep.get("tier", "quick")), "config": CONFIG, "classes": [rep["error_class"]], "every_index": True,
            "spans": [rep.get("fail_span")],
            "requests": [{"name": "replay", "data": rep["request_latin1"], "tls": rep["tls"]}]}
